@@ -458,6 +458,13 @@ func (p *proxyConn) writeResponse(res *http.Response) error {
 		}
 	}
 
+	// An HTTP/1.0 client does not understand the chunked transfer coding,
+	// a body of unknown length is delimited by closing the connection.
+	if !req.ProtoAtLeast(1, 1) && req.Method != http.MethodConnect && shouldChunk(res) {
+		res.TransferEncoding = nil
+		res.Close = true
+	}
+
 	if res.Close {
 		res.Header.Add("Connection", "close")
 	}
